@@ -415,6 +415,7 @@ func run(c *fw.Ctx) {
 	longFamilies(c, emit)
 	longSplits(c, emit)
 	bigPages(c, emit)
+	midRange(c, emit)
 }
 
 // longSplits: 20-record contents whose columns are split into pages at
@@ -534,6 +535,38 @@ func bigPages(c *fw.Ctx, emit func(t *sut.Target, ct content, devs []Dev, tagf s
 			}
 			emit(t, ct, devs, fmt.Sprintf("bigpage|n%d|codec%d", n, cd))
 		}
+	}
+}
+
+// midRange: every record count 1..maxN in one foreign file each (default
+// plan: one page per chunk), so that a threshold the reader introduces at a
+// size in between the small and the boundary cases is crossed.
+func midRange(c *fw.Ctx, emit func(t *sut.Target, ct content, devs []Dev, tagf string, a ...interface{})) {
+	t := sut.Get("mini")
+	maxN := 700
+	if c.Thorough() {
+		maxN = 2600
+	}
+	for n := 1; n <= maxN; n++ {
+		recs := make([]refpq.Val, n)
+		for i := range recs {
+			flag := refpq.Val{Leaf: i%3 == 0}
+			if i%2 == 1 {
+				flag = refpq.Val{Null: true}
+			}
+			tags := refpq.Val{}
+			if i%4 == 1 {
+				tags = refpq.Val{List: []refpq.Val{{Leaf: fmt.Sprintf("t%d", i)}, {Leaf: "u"}}}
+			}
+			recs[i] = refpq.Val{Group: []refpq.Val{{Leaf: int32(i)}, flag, tags, {Null: true}}}
+		}
+		var devs []Dev
+		if n%2 == 0 {
+			for ci := 0; ci < 4; ci++ {
+				devs = append(devs, Dev{Kind: "codec", RG: 0, Col: ci, Arg: refpq.CodecNone})
+			}
+		}
+		emit(t, content{"mini", recs, []int{n}}, devs, fmt.Sprintf("midrange|n%d", n))
 	}
 }
 
